@@ -10,6 +10,7 @@ From PowHsm Require Import Gen.Src.
 From PowHsm Require Import Proofs.SrcEquivDongle.
 From PowHsm Require Import Gen.SrcM.
 From PowHsm Require Import Proofs.SrcEquivDongleM.
+From PowHsm Require Import Proofs.SrcEquivProtoM.
 Open Scope N_scope.
 
 (* for every request and every device script, sign answers only codes docs/protocol.md lists for sign plus the generic ones (closed check on the generated tables vs the generated doc lists) *)
@@ -233,5 +234,33 @@ Theorem C04_source_sign_unauthorized_is_model :
          srcm_HSM2Dongle__sign_unauthorized cm self key_id (VStr hash) w =
          mres sign_res (sign_unauthorized path_bin (fromhex hash) w).
 Proof. exact (@srcm_sign_unauthorized_ok). Qed.
+
+(* TIE BY TRANSLATION (device monad): ensure_connection of ledger/protocol.py, as regenerated from the Python source text, runs on every world as the model's: nothing when no link error is pending; otherwise close, the bring-up (a parameter equal to the model's), the flag cleared only after it succeeded, a protocol error turned into a link error (so that the repair is retried) *)
+Theorem C04_source_ensure_connection_is_model :
+  forall (kind : dongle_kind) (init : pm pv) (self : pv) (w : world),
+         init_ok kind init ->
+         srcm_HSM2ProtocolLedger__ensure_connection init self w =
+         mres (fun _ : unit => VNone) (ensure_connection kind w).
+Proof. exact (@srcm_ensure_connection_ok). Qed.
+
+(* _get_pubkey of the source, as translated (repair first, then the exchange, then the except ladder in source order with the reconnection flag set on a link error), is the model's handler with its generated ladder on every world *)
+Theorem C04_source_get_pubkey_handler_is_model :
+  forall (kind : dongle_kind) (init : pm pv) (cm : string -> pv -> list pv -> pr pv)
+           (self : pv) (req : obj) (x : str) (els : list N) (w : world),
+         init_ok kind init ->
+         jget (s "keyId") req = Some (JStr x) ->
+         bip32_path x = Some els ->
+         cm "to_binary" (SrcEquivBase.path_obj els) [] = POk (VBytes (path_to_binary els)) ->
+         srcm_HSM2ProtocolLedger___get_pubkey cm init self (request_with_path req els) w =
+         mres rtuple_pv (op_get_pubkey kind V5 req w).
+Proof. exact (@srcm_get_pubkey_ok). Qed.
+
+(* _reset_advance_blockchain likewise *)
+Theorem C04_source_reset_advance_handler_is_model :
+  forall (kind : dongle_kind) (init : pm pv) (self request : pv) (req : obj) (w : world),
+         init_ok kind init ->
+         srcm_HSM2ProtocolLedger___reset_advance_blockchain init self request w =
+         mres rtuple_pv (op_reset_advance kind req w).
+Proof. exact (@srcm_reset_advance_blockchain_ok). Qed.
 
 Example C04_nonvacuous : True. Proof. exact I. Qed. (* concrete runs closed by vm_compute in Proofs/C04.v: blockchainState on Status 0x6B87 / silent device / bad opcode / 0x6F00 answers -905; sign on ERR_SIGN_INVALID_PATH answers -103; ex_error_result_escapes_* exhibit the reconnection-bring-up observation recorded in DESIGN.md *)
